@@ -14,6 +14,7 @@ open Nima.C12
 #print axioms rejects_empty
 #print axioms bare_segments_are_identifiers
 #print axioms rejects_examples
+#print axioms quoted_segment_ends_at_boundary
 #print axioms cex_dollar_anchor
 #print axioms cex_keyword_unquoted
 #print axioms cex_spelling
